@@ -718,6 +718,14 @@ func clampField(f *F) {
 	if len(f.S) > 300 && f.K != "uuid" {
 		f.S = f.S[:300]
 	}
+	if f.K == "ary" && f.EK == "void" {
+		// zero-byte elements are a harness type, not something a peer controls: with a planted count of
+		// 2^31 the decoder would (rightly) loop over them for minutes
+		f.EK = "bool"
+		for i := range f.El {
+			f.El[i] = F{K: "bool"}
+		}
+	}
 	for i := range f.El {
 		clampField(&f.El[i])
 	}
@@ -849,7 +857,7 @@ var cmdAlphabet = []string{"a", "b", " ", "\t", "\"", "\\", "é", "ab", "  "}
 // separators a command line may contain between words: blanks, the other ASCII white space, Unicode
 // white space (what strings.TrimSpace / unicode.IsSpace accept), and bytes that merely look like them
 var cmdSeps = []string{" ", " ", " ", " ", "  ", "\t", "\n", "\r", "\v", "\f", " \t", "\u00a0", "\u0085", "\u2003", "\u3000", "\u2028", "\u1680", "\ufeff", "\x00", "\xc2", "\xa0"}
-var cmdWords = []string{"a", "b", "ab", "ba", "é", "aa", "a", "b", "\"q s\"", "\"", "1", "-5", "x", "\\", "a\"", "\xff", "ab ba"}
+var cmdWords = []string{"a", "b", "ab", "ba", "é", "aa", "a", "b", "A", "B", "AB", "Ab", "bA", "É", "AA", "\u212a", "a\u0301", "\"q s\"", "\"", "1", "-5", "x", "\\", "a\"", "\xff", "ab ba"}
 
 // genCmdLine: words that can match the graph's literals, joined by generated separators (a line of
 // random characters seldom gets past the first node).
